@@ -40,22 +40,23 @@ def run_translator() -> tuple[bool, str]:
 # 2. real code on explicit chains
 # ------------------------------------------------------------------------------------------------------------
 
-def gen_scope_chains(rng: random.Random, tier: str) -> list[list[tuple[int, int, int, int]]]:
-    """(cancelled, shield, deadline (-1 = inf), cancel_handle set) innermost first."""
-    atoms = [(c, s, d, h) for c in (0, 1) for s in (0, 1) for d in (-1, 3, 7) for h in (0, 1)]
-    out: list[list[tuple[int, int, int, int]]] = [[]]
+def gen_scope_chains(rng: random.Random, tier: str) -> list[list[tuple[int, int, int, int, int]]]:
+    """(cancelled, shield, deadline (-1 = inf), cancel_handle set, hosted) innermost first.  hosted = 0 is a scope that has
+    been exited (`_host_task is None`) but is still the `_parent_scope` of something below it (F42)."""
+    atoms = [(c, s, d, h, o) for c in (0, 1) for s in (0, 1) for d in (-1, 3, 7) for h in (0, 1) for o in (0, 1)]
+    out: list[list[tuple[int, int, int, int, int]]] = [[]]
     out += [[a] for a in atoms]
     out += [[a, b] for a in atoms for b in atoms]
-    # all flag combinations up to depth 4 with fixed deadlines (the order of the cancel/shield tests matters here)
-    flags = [(c, s) for c in (0, 1) for s in (0, 1)]
+    # all flag combinations up to depth 4 with fixed deadlines (the order of the cancel/shield/exited tests matters)
+    flags = [(c, s, o) for c in (0, 1) for s in (0, 1) for o in (0, 1)]
     for n in (3, 4):
         for combo in itertools.product(flags, repeat=n):
-            out.append([(c, s, (-1, 5, 2, 9)[i % 4], (i + c) % 2) for i, (c, s) in enumerate(combo)])
+            out.append([(c, s, (-1, 5, 2, 9)[i % 4], (i + c) % 2, o) for i, (c, s, o) in enumerate(combo)])
     n_rand = 1500 if tier == "quick" else 20000
     for _ in range(n_rand):
         n = rng.randint(1, 7)
         out.append([(int(rng.random() < 0.3), int(rng.random() < 0.3), rng.choice([-1, -1, 0, 1, 4, 4, 6, 12]),
-                     rng.randint(0, 1)) for _ in range(n)])
+                     rng.randint(0, 1), int(rng.random() < 0.8)) for _ in range(n)])
     return out
 
 
@@ -93,12 +94,14 @@ def eval_real(scope_chains, exc_chains):
 
     def build(chain):
         objs = []
-        for (c, s, d, h) in chain:
+        for (c, s, d, h, hosted) in chain:
             o = Probe()
             o._cancel_called = bool(c)
             o._shield = bool(s)
             o._deadline = math.inf if d < 0 else float(d)
             o._cancel_handle = object() if h else None
+            # what __enter__ sets and the `finally` of __exit__ clears; an exited scope keeps its _parent_scope
+            o._host_task = host if hosted else None
             objs.append(o)
         for i in range(len(objs) - 1):
             objs[i]._parent_scope = objs[i + 1]
@@ -111,6 +114,8 @@ def eval_real(scope_chains, exc_chains):
             return [1, 0]
         assert float(x).is_integer()
         return [2, int(x)]
+
+    host = object()   # stands for the host task of every scope that is still entered
 
     async def main():
         task = asyncio.current_task()
@@ -181,6 +186,7 @@ def crosscheck(tier: str) -> dict:
     out["exc_chains"] = len(ec)
     out["chains_effectively_cancelled"] = sum(r[0] for r in sres)
     out["chains_with_restart_target"] = sum(1 for r in sres if r[6])
+    out["chains_with_exited_scope"] = sum(1 for c in sc if any(not rec[4] for rec in c))
     try:
         ok_mk, log_mk = core.coq_make(["scopes/ChainCodec.vo"], timeout=600)
         if not ok_mk:
@@ -235,10 +241,11 @@ def check(pid: str, tier: str, scheck) -> int:
                 "exc_chains": xc.get("exc_chains"),
                 "chains_effectively_cancelled": xc.get("chains_effectively_cancelled"),
                 "chains_with_restart_target": xc.get("chains_with_restart_target"),
+                "chains_with_exited_scope": xc.get("chains_with_exited_scope"),
                 "crosscheck_mismatches": len(xc["mismatches"]), "crosscheck_error": xc["error"],
                 "vm_compute_ok": xc.get("vm_compute_ok"), "vm_compute_sample": xc.get("vm_compute_sample"),
                 "rule": "real CancelScope objects linked by _parent_scope (exhaustive depth<=2 over cancelled x shield x "
-                        "deadline x handle, all flag combinations to depth 4, random to depth 7) and __context__ chains "
+                        "deadline x handle x exited, all flag combinations to depth 4, random to depth 7) and __context__ chains "
                         "(exhaustive to length 4, random to 8), evaluated by the real properties/functions vs the generated "
                         "Coq functions and the specs",
             }
